@@ -366,7 +366,7 @@ func (w *world) write(a action) {
 		}
 	} else {
 		what = fmt.Sprintf("%s.ReadFrom(%d bytes, <=%d per read)", a.E, a.Len, a.Cap)
-		src := &streamkit.ScriptReader{Pat: s.pat, Lo: lo, Total: a.Len, Cap: a.Cap}
+		src := &streamkit.ScriptReader{Pat: s.pat, Lo: lo, Total: a.Len, Cap: a.Cap, EOFWithData: w.rnd.IntN(2) == 0}
 		rf, ok := c.(io.ReaderFrom)
 		if !ok {
 			w.res.Break("%s does not implement io.ReaderFrom", a.E)
@@ -548,7 +548,9 @@ func (w *world) relay(a action) {
 	src.drained = true
 	if pv != nil {
 		key := keyFor(src, leftPending, "stream.relay/panic")
-		if src.plainRead && !leftPending && !isClient(a.X) {
+		if src.plainRead && !isClient(a.X) && len(dst.exp) == 0 {
+			// the relay read the first response bytes with Read, then hands the rest to a server tunnel
+			// that has not written its response header yet
 			key = "stream.relay/first-write-after-plain-read"
 		}
 		w.violation(key, "%s panicked: %v", what, pv)
@@ -605,7 +607,7 @@ func runBehaviour(t *testing.T, in *vio.Input, k consts, bi int, b vio.Behaviour
 		}
 		res.Seen(a.N + "/" + a.Out.Res + "/" + a.Out.How)
 		// cross-check the driver's account with the model's projection
-		if len(st.O) > 0 {
+		if len(st.O) > 0 && string(st.O) != "null" {
 			var o obs
 			if err := json.Unmarshal(st.O, &o); err == nil {
 				for e, s := range w.str {
@@ -628,6 +630,7 @@ func TestReplay(t *testing.T) {
 		t.Skip(err)
 	}
 	res := vio.NewResult()
+	res.Samples = []any{}
 	defer func() {
 		if err := res.Write(); err != nil {
 			t.Fatal(err)
